@@ -411,6 +411,16 @@ def refused_items(r):
             for s, ts in bad for nd in (True,)]
 
 
+def corpus_items():
+    """Minimised past failures (harness/corpus/C17/*.json), run first."""
+    out = []
+    for f in sorted((core.VERIF / "harness" / "corpus" / "C17").glob("*.json")):
+        c = json.loads(f.read_text())
+        if c.get("type") in ("exp", "pair", "scale", "inc", "lin") and c.get("payloads"):
+            out.append({k: c[k] for k in ("type", "dy", "payloads", "c", "refused", "name") if k in c})
+    return out
+
+
 def all_subsets():
     out = []
     for mask in range(1, 2 ** len(RATE_MODELS)):
@@ -719,7 +729,8 @@ def run(ctx: Ctx):
 
     r = ctx.rng("cases")
     q = ctx.quick
-    items = []
+    items = corpus_items()
+    ctx.cov["corpus_cases"] = len(items)
     items += call_items(ctx, r, 6 if q else 30, True)
     items += call_items(ctx, ctx.rng("calls-nd"), 3 if q else 12, False)
     singles_and_full = [[k] for k in RATE_MODELS] + [list(RATE_MODELS)]
